@@ -190,6 +190,27 @@ func ApplyUnifiedDiff(repo string, diff []byte) (map[string][]byte, error) {
 	return out, nil
 }
 
+// displacedKnown: the key is a known finding of the unchanged tree reported at a renamed/moved site
+// (same rule and construct kind as a key that is non-discharged on the unchanged tree).
+func displacedKnown(key string, base map[string]bool) bool {
+	kind := func(k string) string {
+		var out []string
+		for _, sg := range strings.Split(k, "/") {
+			if strings.HasPrefix(sg, "(") || strings.Contains(sg, ".") {
+				break
+			}
+			out = append(out, sg)
+		}
+		return strings.Join(out, "/")
+	}
+	for b := range base {
+		if kind(b) == kind(key) {
+			return true
+		}
+	}
+	return false
+}
+
 func init() {
 	Thorough = func(c *engine.Check, id string, extra map[string]any) {
 		verif := os.Getenv("GROGCHECK_VERIF")
@@ -308,6 +329,80 @@ func init() {
 					armed++
 				} else {
 					c.Note("arming: variant %s (%s) is applicable but no rule of %s fired on it", j.res.ID, j.res.Kind, id)
+				}
+			}
+		}
+		// behaviour-preserving refactorings (refactors/*/patch.diff): the rules must stay silent on them
+		refs, _ := filepath.Glob(filepath.Join(verif, "refactors", "*", "patch.diff"))
+		sort.Strings(refs)
+		type refRes struct {
+			ID      string   `json:"id"`
+			Applies bool     `json:"applicable"`
+			Silent  bool     `json:"silent"`
+			NewKeys []string `json:"new_obligations,omitempty"`
+		}
+		refResults := make([]refRes, len(refs))
+		var wg2 sync.WaitGroup
+		for i, pf := range refs {
+			dir := filepath.Dir(pf)
+			refResults[i].ID = filepath.Base(dir)
+			diff, err := os.ReadFile(pf)
+			if err != nil {
+				continue
+			}
+			if _, err := ApplyUnifiedDiff(c.P.RepoDir, diff); err != nil {
+				continue
+			}
+			refResults[i].Applies = true
+			wg2.Add(1)
+			go func(i int, dir string) {
+				defer wg2.Done()
+				sem <- struct{}{}
+				defer func() { <-sem }()
+				cmd := exec.Command(os.Args[0], "variant", id, "-repo", c.P.RepoDir, "-seed", dir)
+				cmd.Env = os.Environ()
+				out, err := cmd.Output()
+				if err != nil {
+					refResults[i].Applies = false
+					return
+				}
+				var r struct {
+					Keys  []string `json:"keys"`
+					Error string   `json:"error"`
+				}
+				lines := strings.Split(strings.TrimSpace(string(out)), "\n")
+				_ = json.Unmarshal([]byte(lines[len(lines)-1]), &r)
+				if r.Error != "" {
+					refResults[i].Applies = false
+					return
+				}
+				for _, k := range r.Keys {
+					if !base[k] && !displacedKnown(k, base) {
+						refResults[i].NewKeys = append(refResults[i].NewKeys, k)
+					}
+				}
+				refResults[i].Silent = len(refResults[i].NewKeys) == 0
+			}(i, dir)
+		}
+		wg2.Wait()
+		refApplicable, refSilent := 0, 0
+		for _, r := range refResults {
+			if r.Applies {
+				refApplicable++
+				if r.Silent {
+					refSilent++
+				} else {
+					c.Note("false alarm on behaviour-preserving refactoring %s: %v", r.ID, r.NewKeys)
+				}
+			}
+		}
+		if len(refs) > 0 {
+			extra["refactoring_variants"] = refResults
+			extra["refactorings_silent"] = fmt.Sprintf("%d/%d applicable behaviour-preserving refactorings raise no new obligation (%d listed)", refSilent, refApplicable, len(refs))
+			fmt.Printf("  thorough: silent on %d/%d applicable behaviour-preserving refactorings (%d listed)\n", refSilent, refApplicable, len(refs))
+			for _, r := range refResults {
+				if r.Applies && !r.Silent {
+					fmt.Printf("    refactoring %-8s NOT silent -> %s\n", r.ID, r.NewKeys[0])
 				}
 			}
 		}
